@@ -183,7 +183,9 @@ pub fn replay(v: &Value, path: &str, quiet: bool) -> i32 {
             1
         }
         None => {
-            println!("replay {}: no violation on the current tree", path);
+            if !quiet {
+                println!("replay {}: no violation on the current tree", path);
+            }
             0
         }
     }
